@@ -141,6 +141,14 @@ func c13OpLen(op map[string]interface{}) int {
 }
 
 func c13Timeout(op map[string]interface{}) time.Duration {
+	// after several hangs in one run the remaining cases get a short leash (the run is failing
+	// anyway; this keeps a hang-type defect from costing 20 s per case)
+	if os.Getenv("C13_FAST_TIMEOUT") != "" {
+		if c13OpLen(op) > 2000 {
+			return 15 * time.Second
+		}
+		return 2500 * time.Millisecond
+	}
 	if ms, err := strconv.Atoi(os.Getenv("C13_TIMEOUT_MS")); err == nil && ms > 0 {
 		return time.Duration(ms) * time.Millisecond // self-test / debugging only
 	}
@@ -637,6 +645,11 @@ func c13RunCase(op map[string]interface{}) (opOut map[string]interface{}, obs ma
 	if !ok {
 		return op, map[string]interface{}{"bad": "unknown op"}
 	}
+	// a combinator that has already hung many times in this run is not run again: the run has its
+	// failing inputs, the rest would only cost a timeout each (lines are counted as skipped)
+	if strings.Contains(","+os.Getenv("C13_SKIP_KINDS")+",", ","+c13Str(op["op"])+",") {
+		return op, map[string]interface{}{"skip": true}
+	}
 	if p := c13Int(op["procs"]); p > 0 {
 		runtime.GOMAXPROCS(p)
 	}
@@ -824,6 +837,18 @@ func c13Spawn(ops []map[string]interface{}) (opsOut []map[string]interface{}, ob
 		}
 		env = append(env, e)
 	}
+	if c13TimeoutsSeen >= 3 {
+		env = append(env, "C13_FAST_TIMEOUT=1")
+	}
+	skip := []string{}
+	for k, n := range c13TimeoutsByKind {
+		if n >= 8 {
+			skip = append(skip, k)
+		}
+	}
+	if len(skip) > 0 {
+		env = append(env, "C13_SKIP_KINDS="+strings.Join(skip, ","))
+	}
 	cmd.Env = env
 	if err := cmd.Run(); err != nil {
 		fmt.Fprintf(os.Stderr, "C13: worker %d ended: %v\n", c13Spawned, err)
@@ -841,6 +866,10 @@ func c13Spawn(ops []map[string]interface{}) (opsOut []map[string]interface{}, ob
 // c13RunIsolated executes the ops in worker processes.  If a worker stops early, the line it was
 // working on (not written) is a crash -> {"panic":true}, unless the last line it wrote is a
 // timeout (then it exited on purpose); the remaining ops go to a fresh worker.
+// c13TimeoutsSeen counts the hangs observed so far in this harness run.
+var c13TimeoutsSeen int
+var c13TimeoutsByKind = map[string]int{}
+
 func c13RunIsolated(ops []map[string]interface{}) (opsOut []map[string]interface{}, obs []map[string]interface{}) {
 	opsOut = make([]map[string]interface{}, 0, len(ops))
 	obs = make([]map[string]interface{}, 0, len(ops))
@@ -856,6 +885,10 @@ func c13RunIsolated(ops []map[string]interface{}) (opsOut []map[string]interface
 		deliberate := false
 		if len(b) > 0 {
 			_, deliberate = b[len(b)-1]["timeout"]
+		}
+		if deliberate {
+			c13TimeoutsSeen++
+			c13TimeoutsByKind[c13Str(o[len(o)-1]["op"])]++
 		}
 		if !deliberate {
 			fo, fb := c13Fail(rest[0], "panic")
